@@ -217,18 +217,68 @@ def t_annassign(src: str) -> str:
     return ast.unparse(ast.fix_missing_locations(_ElseIf().visit(ast.parse(src)))) + "\n"
 
 
+def jinja_rename(src: str) -> str:
+    """rename every macro parameter, loop variable and `set` variable of a template"""
+    import jinja2
+    from jinja2 import nodes
+    env = jinja2.Environment()
+    tree = env.parse(src)
+    bound = set()
+    for m in tree.find_all(nodes.Macro):
+        bound |= {a.name for a in m.args}
+    for f in tree.find_all(nodes.For):
+        bound |= {n.name for n in [f.target] + list(f.target.find_all(nodes.Name))
+                  if isinstance(n, nodes.Name)}
+    for a in tree.find_all(nodes.Assign):
+        bound |= {n.name for n in [a.target] + list(a.target.find_all(nodes.Name))
+                  if isinstance(n, nodes.Name)}
+    keep = {i.target for i in tree.find_all(nodes.Import)} | {
+        m.name for m in tree.find_all(nodes.Macro)} | {"loop", "none", "true", "false", "not",
+                                                        "and", "or", "in", "is", "if", "else"}
+    bound -= keep
+    toks = list(env.lex(src))
+    out = []
+    in_macro_header = False
+    for i, (ln, typ, val) in enumerate(toks):
+        if typ == "name" and val == "macro":
+            in_macro_header = True
+        if typ == "block_end":
+            in_macro_header = False
+        if typ == "name" and val in bound:
+            prev = next((t for t in reversed(toks[:i]) if t[1] != "whitespace"), None)
+            nxt = next((t for t in toks[i + 1:] if t[1] != "whitespace"), None)
+            is_attr = prev is not None and prev[1] == "operator" and prev[2] == "."
+            # keyword argument of a call: `name=` inside parentheses (not `set name =`)
+            is_kw = nxt is not None and nxt[1] == "operator" and nxt[2] == "=" and not (
+                prev is not None and prev[1] == "name" and prev[2] == "set")
+            if not is_attr and (not is_kw or in_macro_header):
+                val = val + "_v"
+        out.append(val)
+    res = "".join(out)
+    env.parse(res)
+    return res
+
+
 KINDS = {"unparse": t_unparse, "rename": t_rename, "flip": t_flip, "invert": t_invert,
-         "notis": t_notis, "annassign": t_annassign}
+         "notis": t_notis, "annassign": t_annassign, "jrename": None}
 
 
 def run_kind(kind):
     d = scratch(kind)
     try:
-        for p in py_files(d):
-            src = open(p, encoding="utf-8").read()
-            out = KINDS[kind](src)
-            compile(out, p, "exec")
-            open(p, "w", encoding="utf-8").write(out)
+        if kind == "jrename":
+            for root, _dirs, files in os.walk(os.path.join(d, "odxtools", "templates")):
+                for fn in files:
+                    if fn.endswith(".jinja2"):
+                        p = os.path.join(root, fn)
+                        src = open(p, encoding="utf-8").read()
+                        open(p, "w", encoding="utf-8").write(jinja_rename(src))
+        else:
+            for p in py_files(d):
+                src = open(p, encoding="utf-8").read()
+                out = KINDS[kind](src)
+                compile(out, p, "exec")
+                open(p, "w", encoding="utf-8").write(out)
         # the twin must still pass the test suite (it is behaviour preserving)
         t = subprocess.run(f"{PY} -m pytest -q -p no:cacheprovider --timeout=900 -x tests",
                            shell=True, cwd=d, env=dict(os.environ, PYTHONPATH=d),
